@@ -66,6 +66,22 @@ Theorem content_length_value_roundtrip : forall n, parse_int (dec n) = Some n.
 Proof. exact parse_int_dec. Qed.
 Print Assumptions content_length_value_roundtrip.
 
+(* end to end: any sequence of messages written back to back by _send is decoded by the
+   reader model into exactly the serialised payloads, which are pure ASCII (so the byte
+   stream and the character stream coincide), then EOF *)
+Theorem send_receive_roundtrip : forall (vs : list json) fuel,
+  (List.length vs < fuel)%nat ->
+  receive_all fuel (concat (map send vs)) = (map dumps vs, REof).
+Proof.
+  intros vs fuel Hf.
+  assert (E : map send vs = map (fun lb => frame (fst lb) (snd lb)) (map (fun v => (LenFirst, dumps v)) vs)).
+  { rewrite map_map. apply map_ext. intro v. cbn [fst snd].
+    rewrite send_is_frame, (utf8_ascii _ (dumps_ascii v)). reflexivity. }
+  rewrite E, receive_all_frames by (rewrite map_length; exact Hf).
+  rewrite map_map. reflexivity.
+Qed.
+Print Assumptions send_receive_roundtrip.
+
 (* non-vacuity / sanity: a Content-Type-first frame with a non-ASCII body followed by a
    Content-Length-only frame; and the escape of U+1F600 *)
 Example C16_nonvacuous :
